@@ -1,5 +1,7 @@
 import Amgcl.Proofs.RelaxJacobi
 import Amgcl.Proofs.RelaxGS
+import Amgcl.Proofs.RelaxCheb
+import Amgcl.Proofs.RelaxIlu
 /-!
 # C06 — every relaxation sweep equals its mathematical definition
 
@@ -245,5 +247,138 @@ theorem gs_fixed_point (A : CRS K) (hd : diagOnceb A = true) (hnz : ∀ i, i < A
    (gs_affine_scratch_indep A hd hnz).post_fixed f x t hx hf h⟩
 
 end gs
+
+/-! ## Chebyshev -/
+section cheb
+variable {K : Type} [Field K] [DecidableEq K]
+
+/-- the mutable members `p`, `r` are pure scratch: whatever they contain (left-overs of earlier sweeps included),
+`solve` returns the same `x` — iteration `k = 0` overwrites both because `beta = 0` there -/
+theorem cheb_scratch_indep (s : ChebState K) (A : CRS K) (b x p r p' r' : Vec K) :
+    (chebSolve s A b x p r).1 = (chebSolve s A b x p' r').1 :=
+  chebSolve_indep s A b x p r p' r'
+
+/-- hence a second sweep on the same object equals a sweep on a freshly constructed one -/
+theorem cheb_reuse (s : ChebState K) (A : CRS K) (f g x : Vec K) :
+    let first := chebSolve s A f x s.p s.r
+    (chebSolve s A g first.1 first.2.1 first.2.2).1 = (chebSolve s A g first.1 s.p s.r).1 :=
+  chebSolve_indep s A g _ _ _ _ _
+
+/-- the constructor keeps an inverted diagonal of the right length when `scale` is set -/
+theorem cheb_setup [LT K] [DecidableLT K] (prm : ChebParams K) (norm : K → K) (A : CRS K)
+    (hd : prm.scale = true → hasDiagb A = true) :
+    (chebyshev prm norm).setup A = .ok (chebSetup prm norm A)
+    ∧ ((chebSetup prm norm A).scale = true → (chebSetup prm norm A).M.size = A.nrows)
+    ∧ (chebSetup prm norm A).degree = prm.degree := by
+  refine ⟨?_, ?_, rfl⟩
+  · cases hs : prm.scale
+    · simp [chebyshev, hs]
+    · simp [chebyshev, hs, hd hs]
+  · intro h
+    have : prm.scale = true := h
+    simp [chebSetup, this]
+
+/-- `cheb_affine_fixed`: for every degree, every ellipse `(c, d)` (also degenerate ones), with or without scaling,
+one Chebyshev sweep is a jointly linear map of `(f, x)` that does not depend on `tmp` nor on the members `p, r`,
+keeps the length, and fixes every solution of `A x = f` -/
+theorem cheb_affine_fixed [LT K] [DecidableLT K] (prm : ChebParams K) (norm : K → K) (s : ChebState K)
+    (A : CRS K) (hM : s.scale = true → s.M.size = A.nrows) :
+    Smoother.Good (chebyshev prm norm) s A := by
+  have hlin : Sweep.JointlyLinear (fun f x (t : Vec K) => ((chebSolve s A f x s.p s.r).1, t)) A.nrows := by
+    intro a b f g x y t t₁ t₂ hf hg hx hy
+    exact chebSolve_vlin s A hM a b f g x y _ _ _ _ _ _ hf hg hx hy
+  have hfix : Sweep.FixedPoint (fun f x (t : Vec K) => ((chebSolve s A f x s.p s.r).1, t)) A := by
+    intro f x t hx _ h
+    exact chebSolve_fixed s A hM f x _ _ hx h
+  have hsz : Sweep.SizeOk (fun f x (t : Vec K) => ((chebSolve s A f x s.p s.r).1, t)) A.nrows := by
+    intro f x t _ hx
+    exact chebSolve_size s A hM f x _ _ hx
+  exact ⟨fun _ _ _ _ => rfl, fun _ _ _ _ => rfl, hlin, hlin, hsz, hsz, hfix, hfix⟩
+
+theorem cheb_fixed_point [LT K] [DecidableLT K] (prm : ChebParams K) (norm : K → K) (A : CRS K)
+    (hd : prm.scale = true → hasDiagb A = true) (f x t : Vec K) (hx : x.size = A.nrows) (hf : f.size = A.nrows)
+    (h : ∀ i, i < A.nrows → rowDot (A.row i) x = f.getD i 0) :
+    ((chebyshev prm norm).applyPre (chebSetup prm norm A) A f x t).1 = x
+    ∧ ((chebyshev prm norm).applyPost (chebSetup prm norm A) A f x t).1 = x :=
+  ⟨(cheb_affine_fixed prm norm _ A (cheb_setup prm norm A hd).2.1).pre_fixed f x t hx hf h,
+   (cheb_affine_fixed prm norm _ A (cheb_setup prm norm A hd).2.1).post_fixed f x t hx hf h⟩
+
+end cheb
+
+/-! ## ILU: serial triangular solve and the sweeps built on it -/
+section ilu
+variable {K : Type} [Field K]
+
+/-- what `ilu_solve<builtin>::serial_solve` computes, precisely: with `L` strictly lower, `U` strictly upper and
+`D` the stored (inverted) pivots, the returned `z` and the intermediate `y` of the lower phase satisfy
+`y_i + Σ_j L_ij y_j = b_i` and `z_i = D_i (y_i − Σ_j U_ij z_j)` — i.e. `(I + L) y = b`, `(D⁻¹ + U) z = y`. -/
+theorem ilu_solve_serial_spec (F : IluFactors K) (hL : strictLowerb F.L = true) (hU : strictUpperb F.U = true)
+    (hLwf : F.L.WF) (hUwf : F.U.WF) (hLc : F.L.ncols = F.L.nrows) (hUn : F.U.nrows = F.L.nrows)
+    (hUc : F.U.ncols = F.L.nrows) (b : Vec K) (hb : b.size = F.L.nrows) :
+    ∃ y : Vec K,
+      (∀ i, i < F.L.nrows → y.getD i 0 + ∑ j ∈ range F.L.nrows, F.L.get i j * y.getD j 0 = b.getD i 0) ∧
+      (∀ i, i < F.L.nrows → (iluSolve F b).getD i 0
+          = F.D.getD i 0 * (y.getD i 0 - ∑ j ∈ range F.L.nrows, F.U.get i j * (iluSolve F b).getD j 0)) := by
+  refine ⟨(List.range F.L.nrows).foldl (lowStep F) b, ?_, ?_⟩
+  · intro i hi
+    have h := lowPhase_spec F hL b hb i hi
+    rw [rowDot_eq_sum _ _ F.L.ncols (row_wf hLwf i hi), hLc] at h
+    rw [h]; unfold CRS.get; ring
+  · intro i hi
+    have hy : ((List.range F.L.nrows).foldl (lowStep F) b).size = F.L.nrows := by
+      rw [fold_size _ (lowStep_size F)]; exact hb
+    have h := upPhase_spec F hU hUwf hUn hUc _ hy i hi
+    rw [rowDot_eq_sum _ _ F.U.ncols (row_wf hUwf i (by omega)), hUc] at h
+    rw [iluSolve_eq]; exact h
+
+/-- with non-zero stored pivots: `((I + L)(D⁻¹ + U)) z = b`, the factors being read as in `Relax.lowEntry` /
+`Relax.upEntry` (the same reading the checkers `luOnPatternb` use) -/
+theorem ilu_solve_serial_inverse [DecidableEq K] (F : IluFactors K) (hL : strictLowerb F.L = true)
+    (hU : strictUpperb F.U = true) (hLwf : F.L.WF) (hUwf : F.U.WF) (hLc : F.L.ncols = F.L.nrows)
+    (hUn : F.U.nrows = F.L.nrows) (hUc : F.U.ncols = F.L.nrows) (hD : ∀ i, i < F.L.nrows → F.D.getD i 0 ≠ 0)
+    (b : Vec K) (hb : b.size = F.L.nrows) (i : Nat) (hi : i < F.L.nrows) :
+    ∑ k ∈ range F.L.nrows, lowEntry F i k * (∑ j ∈ range F.L.nrows, upEntry F k j * (iluSolve F b).getD j 0)
+      = b.getD i 0 := by
+  obtain ⟨y, h1, h2⟩ := ilu_solve_serial_spec F hL hU hLwf hUwf hLc hUn hUc b hb
+  have hup : ∀ k ∈ range F.L.nrows, (∑ j ∈ range F.L.nrows, upEntry F k j * (iluSolve F b).getD j 0) = y.getD k 0 := by
+    intro k hk
+    have hk' := mem_range.mp hk
+    have : ∀ j ∈ range F.L.nrows, upEntry F k j * (iluSolve F b).getD j 0
+        = (if k = j then 1 / F.D.getD k 0 * (iluSolve F b).getD j 0 else 0) + F.U.get k j * (iluSolve F b).getD j 0 := by
+      intro j _; unfold upEntry; split <;> ring
+    rw [sum_congr rfl this, sum_add_distrib, sum_ite_eq, if_pos hk, h2 k hk']
+    have := hD k hk'
+    field_simp
+    ring
+  rw [sum_congr rfl (fun k hk => by rw [hup k hk])]
+  have : ∀ k ∈ range F.L.nrows, lowEntry F i k * y.getD k 0
+      = (if i = k then y.getD k 0 else 0) + F.L.get i k * y.getD k 0 := by
+    intro k _; unfold lowEntry; split <;> ring
+  rw [sum_congr rfl this, sum_add_distrib, sum_ite_eq, if_pos (mem_range.mpr hi)]
+  exact h1 i hi
+
+variable [DecidableEq K]
+
+/-- the ILU sweep `x ← x + ω·solve(f − A x)` with **any** factors: scratch independent, jointly linear, length
+preserving, and every solution of `A x = f` is a fixed point (the triangular solve is linear, so it maps `0` to `0`;
+no hypothesis on pivots is needed once the constructor has succeeded) -/
+theorem ilu0_affine_scratch_indep (ω : K) (F : IluFactors K) (A : CRS K) : Smoother.Good (ilu0 ω) F A := by
+  obtain ⟨h1, h2, h3, h4⟩ := iluSweep_facts ω F A
+  exact ⟨h1, h1, h2, h2, h3, h3, h4, h4⟩
+
+theorem ilu0_fixed_point (ω : K) (A : CRS K) (F : IluFactors K) (_hsetup : (ilu0 ω).setup A = .ok F)
+    (f x t : Vec K) (hx : x.size = A.nrows) (hf : f.size = A.nrows)
+    (h : ∀ i, i < A.nrows → rowDot (A.row i) x = f.getD i 0) :
+    ((ilu0 ω).applyPre F A f x t).1 = x ∧ ((ilu0 ω).applyPost F A f x t).1 = x :=
+  ⟨(ilu0_affine_scratch_indep ω F A).pre_fixed f x t hx hf h,
+   (ilu0_affine_scratch_indep ω F A).post_fixed f x t hx hf h⟩
+
+/-- `tmp` leaves the sweep as `solve(f − A x)` and the update is `x' = ω·tmp' + x` -/
+theorem ilu0_sweep (ω : K) (F : IluFactors K) (A : CRS K) (f x t : Vec K) :
+    ((ilu0 ω).applyPre F A f x t).2 = iluSolve F (residual f A x)
+    ∧ ((ilu0 ω).applyPre F A f x t).1 = axpby ω (iluSolve F (residual f A x)) 1 x
+    ∧ (ilu0 ω).applyPost F A f x t = (ilu0 ω).applyPre F A f x t := ⟨rfl, rfl, rfl⟩
+
+end ilu
 
 end Amgcl.C06
